@@ -17,6 +17,48 @@ use std::time::Instant;
 
 pub const WORKERS: usize = 16;
 
+/// incremented whenever a case (or an enumeration block) has been judged; the watchdog reads it
+pub static HEARTBEAT: AtomicU64 = AtomicU64::new(0);
+
+fn process_cpu_seconds() -> f64 {
+    let Ok(s) = std::fs::read_to_string("/proc/self/stat") else { return 0.0 };
+    // fields 14 and 15 (utime, stime) counted behind the closing parenthesis of the command name
+    let Some(rest) = s.rsplit(')').next() else { return 0.0 };
+    let f: Vec<&str> = rest.split_whitespace().collect();
+    let ticks: f64 = f.get(11).and_then(|x| x.parse::<f64>().ok()).unwrap_or(0.0) + f.get(12).and_then(|x| x.parse::<f64>().ok()).unwrap_or(0.0);
+    ticks / 100.0
+}
+
+/// Watchdog for code under test that never returns inside this process (only C12 runs loads in a child): when no case
+/// has been finished for at least 90 s of wall-clock time AND the process has burned more than 900 s of CPU time since
+/// the last finished case (a spinning worker, not a sleeping machine), the run is given up as INCONCLUSIVE (exit 2).
+/// That is never reported as a violation: this check cannot attribute a hang to its property.
+pub fn spawn_watchdog(prop: String) {
+    std::thread::spawn(move || {
+        let mut last = HEARTBEAT.load(Ordering::Relaxed);
+        let mut since = Instant::now();
+        let mut cpu_at = process_cpu_seconds();
+        loop {
+            std::thread::sleep(std::time::Duration::from_secs(5));
+            let now = HEARTBEAT.load(Ordering::Relaxed);
+            if now != last {
+                last = now;
+                since = Instant::now();
+                cpu_at = process_cpu_seconds();
+                continue;
+            }
+            let burned = process_cpu_seconds() - cpu_at;
+            if since.elapsed().as_secs() >= 90 && burned > 900.0 {
+                println!(
+                    "INCONCLUSIVE property={} watchdog: no case finished for {} s while {:.0} s of CPU were consumed - some call into dlt-core does not return in this process (non-termination is judged by the C12 check, in a child process); no verdict",
+                    prop, since.elapsed().as_secs(), burned
+                );
+                std::process::exit(2);
+            }
+        }
+    });
+}
+
 thread_local! {
     static SHRINKING: Cell<bool> = const { Cell::new(false) };
 }
@@ -273,6 +315,7 @@ impl Run {
                         if failed.get() {
                             // shrinking: evaluate only, no counting
                             SHRINKING.with(|s| s.set(true));
+                            HEARTBEAT.fetch_add(1, Ordering::Relaxed);
                             return match check(&case) {
                                 Ok(_) => Ok(()),
                                 Err(v) => {
@@ -288,7 +331,9 @@ impl Run {
                             return Ok(());
                         }
                         evals.set(evals.get() + 1);
-                        match check(&case) {
+                        let verdict = check(&case);
+                        HEARTBEAT.fetch_add(1, Ordering::Relaxed);
+                        match verdict {
                             Ok(pass) => {
                                 subs.set(subs.get() + pass.subcases);
                                 let mut lc = local_classes.borrow_mut();
@@ -386,6 +431,7 @@ impl Run {
                             break;
                         }
                         let rep = f(b);
+                        HEARTBEAT.fetch_add(1, Ordering::Relaxed);
                         sec_evals.fetch_add(rep.evaluations, Ordering::Relaxed);
                         sec_nt.fetch_add(rep.nontrivial, Ordering::Relaxed);
                         for (c, n) in rep.classes {
